@@ -54,3 +54,19 @@ add("C09", "exploration",
     "Six well-posed families (SPD and strictly diagonally dominant, symmetric and nonsymmetric, mixed-sign diagonals) of order 1..60 in three triplet orders with right-hand sides A x*, 0 and 1e6 A x*, guesses 0 / exact / generic and three tolerances: each applicable solver must answer Ok within 6n+30 iterations and agree with an independent dense LU solution within 10 tol ||A^-1|| ||b||; exact guesses and zero/zero starts must be accepted with x finite. Plus every strictly dominant SPD 2x2/3x3 matrix over a 5-letter alphabet for CG.",
     "Trusted: independent dense LU and condition estimate. The Lanczos-type solvers are judged on irreducible families only: on reducible lattice members they meet exact breakdowns inherent to the methods (documented in DESIGN.md).",
     "DESIGN.md section 6 C09")
+
+add("C10", "exploration",
+    "exhaustive enumeration of root multisets and coefficient vectors over small alphabets, backward error in the property's own measure",
+    "Every multiset of up to 5 (quick) / 7 (thorough) roots from a 12-letter alphabet (zero, unit, conjugate, repeated, 1e3 and 1e-3 roots) with four leading coefficients, every integer and Gaussian-integer coefficient vector of degree <= 4/5 with non-zero lead, conjugate-closed multisets through the f64 entry point, and degree 8..12 products with x^k-1, each with and without refinement: exactly n finite values, each with |p(z)|/(max|a_k| max(1,|z|)^n) below 1e-9 (1e-2 unrefined with a root of modulus 1e3), one-to-one matching for simple separated roots, degree 0 rejected.",
+    "Trusted: independent complex Horner evaluation. Thresholds are >= 40x the worst value observed on the repaired tree; polynomials outside the alphabets / degree > 12 are not covered.",
+    "DESIGN.md section 6 C10")
+add("C11", "model_checking",
+    "exhaustive pair enumeration over three element types + explicit-state BFS over ring-operation histories against a coefficient-list model",
+    "All ordered pairs of coefficient vectors of length 0..3 (quick) / 0..4 (thorough) over {-1,0,1,2} for rationals, f64 and Complex<f64>, plus a structured family up to length 9: every operator (owned and borrowed), evaluation homomorphism at six points, derivative_n for every order 0..deg+1, linearity and product rule; BFS over histories of add/sub/mul/neg/scale/derivative/trim/coefficient writes on a real Polynomial<Rat>.",
+    "Trusted: termwise/convolution list model. Comparison is modulo trailing zeros as the property states; stored length may not exceed the natural one.",
+    "DESIGN.md section 6 C11")
+add("C12", "exploration",
+    "exhaustive enumeration of dividend/divisor pairs over exact and floating alphabets with a per-call hang watchdog",
+    "Every dividend of length 0..4 and divisor of length 0..3 over {0,+-1,+-2} exactly; 2.7e6 (quick) / 2.2e7 (thorough) f64 pairs over {1,-3,0.1,49,1e-6,-7.3e5,0,1/3} whose leading terms mostly do not cancel exactly; integer-valued f64 and Complex<f64> lattices: Ok iff the divisor is non-zero (leading coefficient non-zero), u = q*v + r exactly / to 1e-13 (double-double residual), deg r < deg v or r = 0, Err on empty/zero divisors, no panic, no spin (20 s watchdog per call).",
+    "Trusted: independent convolution; divisors with zero stored leading coefficient are outside the claim.",
+    "DESIGN.md section 6 C12")
